@@ -35,6 +35,20 @@ def find_target(L, t):
     if 'lambda_in' in t or 'region_in' in t or 'local_method_in' in t:
         host = find_target(L, {'qname': t.get('lambda_in') or t.get('region_in') or t.get('local_method_in'), 'type': t.get('host_type')})
         return host
+    if 'qname_re' in t:
+        # names that embed a source position (instantiations over a lambda type: "(lambda at file:line:col)")
+        # are matched by pattern; `nth` picks among the matches in source order of the embedded position
+        def natkey(s):
+            return [int(x) if x.isdigit() else x for x in re.split(r'(\d+)', s)]
+        names = sorted((q for q in idx.funcs if re.fullmatch(t['qname_re'], q)), key=natkey)
+        names = [q for q in names if any(Index.has_body(n) and n['id'] not in idx.pattern for n in idx.funcs[q])]
+        if t.get('expect_matches') is not None and len(names) != t['expect_matches']:
+            raise InfraError('contract no longer attached: pattern %s matched %d function names, spec expects %d' %
+                             (t['qname_re'], len(names), t['expect_matches']))
+        if t.get('nth', 0) >= len(names):
+            raise InfraError('contract no longer attached: pattern %s matched %d function names' % (t['qname_re'], len(names)))
+        t = dict(t)
+        t['qname'] = names[t.get('nth', 0)]
     cands = [n for n in idx.funcs.get(t['qname'], []) if Index.has_body(n) and n['id'] not in idx.pattern]
     if t.get('type'):
         cands = [n for n in cands if n['type']['qualType'] == t['type']]
